@@ -22,6 +22,7 @@ type c18Combo struct {
 	EVar int // key pair in the environment: see c18EnvVars
 	DVar int // values of the two date switches when both are given: see c18DateVars
 	FVar int // file arguments: 0 = one, 1 = two different files, 2 = the same file twice
+	OVar int // value of --outputFile: 0 = out.log, 1 = "-" (a file called "-": the tool has no alias for stdout)
 }
 
 // c18DateVars: values the two date switches can carry.  Only the first pair is what the documentation describes (epoch
@@ -56,6 +57,9 @@ func (k c18Combo) String() string {
 		{k.U, "--atlasPublicKey"}, {k.V, "--atlasPrivateKey"}, {k.A, "--atlasLogStartDate"}, {k.B, "--atlasLogEndDate"}, {k.E, "env-keys"}} {
 		if x.on {
 			n := x.n
+			if n == "-o" && k.OVar == 1 {
+				n = "-o -"
+			}
 			if n == "stdin" && k.SVar == 1 {
 				n = "stdin(regular file)"
 			}
@@ -151,12 +155,18 @@ func c18Run(c *Ctx) {
 		}
 		// the ways of being present are varied one dimension group at a time: stdin x environment x dates as a product with
 		// one file argument, and the file-argument variants with the plain forms of the others
-		for variant := 0; variant < nS*nE*nD+(nF-1); variant++ {
+		nO := 0
+		if k0.O {
+			nO = 1
+		}
+		for variant := 0; variant < nS*nE*nD+(nF-1)+nO; variant++ {
 			k := k0
 			if variant < nS*nE*nD {
 				k.SVar, k.EVar, k.DVar = variant%nS, variant/nS%nE, variant/(nS*nE)
-			} else {
+			} else if variant < nS*nE*nD+(nF-1) {
 				k.FVar = variant - nS*nE*nD + 1
+			} else {
+				k.OVar = 1
 			}
 			class, rule := c18Rule(k)
 			for pre := 0; pre < 2; pre++ {
@@ -170,6 +180,10 @@ func c18Run(c *Ctx) {
 				if pre == 1 {
 					os.WriteFile(filepath.Join(sand, "out.log"), []byte(c18Sentinel), 0o644)
 					os.WriteFile(filepath.Join(sand, "out.log.0"), []byte(c18Sentinel), 0o644)
+					if k.OVar == 1 {
+						os.WriteFile(filepath.Join(sand, "-"), []byte(c18Sentinel), 0o644)
+						os.WriteFile(filepath.Join(sand, "-.0"), []byte(c18Sentinel), 0o644)
+					}
 				}
 				os.Remove(reqLog)
 				args := []string{"redact"}
@@ -182,8 +196,12 @@ func c18Run(c *Ctx) {
 						args = append(args, "in.log")
 					}
 				}
+				outArg := "out.log"
+				if k.OVar == 1 {
+					outArg = "-"
+				}
 				if k.O {
-					args = append(args, "--outputFile", "out.log")
+					args = append(args, "--outputFile", outArg)
 				}
 				if k.Y {
 					args = append(args, "--encrypt")
@@ -252,7 +270,7 @@ func c18Run(c *Ctx) {
 				diff := snapshotDiff(before, after)
 				rejected := r.Exit != 0 || r.Signal != ""
 				desc := fmt.Sprintf("switches [%s]%s: rule %s (%s)", k, map[int]string{0: "", 1: ", output file pre-existing"}[pre], rule, class)
-				rp := map[string]any{"kind": "argv", "mask": mask, "pre_existing_output": pre == 1, "args": args, "env_keys": k.E, "env_variant": c18EnvVars[k.EVar].name, "stdin_piped": k.S, "stdin_regular_file": k.SVar == 1, "file_arguments": map[int]int{0: 1, 1: 2, 2: 2}[k.FVar], "rule": rule, "class": class}
+				rp := map[string]any{"kind": "argv", "mask": mask, "pre_existing_output": pre == 1, "args": args, "env_keys": k.E, "env_variant": c18EnvVars[k.EVar].name, "stdin_piped": k.S, "stdin_regular_file": k.SVar == 1, "output_file_value": outArg, "file_arguments": map[int]int{0: 1, 1: 2, 2: 2}[k.FVar], "rule": rule, "class": class}
 				viol := func(sym, what string) {
 					c.Outcome("model-mismatch")
 					c.Violate(class+":"+rule+":"+sym, fmt.Sprintf("%s: %s; exit %d, stderr %q, requests %d, sandbox changes %v", desc, what, r.Exit, trunc(string(r.Stderr), 160), nreq, diff), int64(popcount(mask)*2+pre), rp, nil)
@@ -289,9 +307,9 @@ func c18Run(c *Ctx) {
 						viol("rejected", "a well-defined job is refused")
 						break
 					}
-					outName := "out.log"
+					outName := outArg
 					if k.P {
-						outName = "out.log.0"
+						outName = outArg + ".0"
 					}
 					if k.O {
 						if b, err := os.ReadFile(filepath.Join(sand, outName)); err != nil || len(b) == 0 || strings.HasPrefix(string(b), "SENTINEL") {
@@ -347,7 +365,7 @@ func c18Post(c *Ctx, m *Part) {
 func init() {
 	register(&PropDef{
 		ID: "C18", Level: "model_checking",
-		Rule:        "all 8192 presence/absence combinations (about 80 000 runs with the variants) of {file argument (one, two different ones, the same one twice), piped stdin, --outputFile, --encrypt, --redactFieldsRegexp, --redactFieldNames, --atlasProjectId, --atlasClusterName, --atlasPublicKey, --atlasPrivateKey, --atlasLogStartDate, --atlasLogEndDate, key pair in the environment}, crossed with the WAYS two of them can be present (stdin: a pipe or a redirected regular file; environment: both variables set, only one of them set, one or both set to the empty string - a half of the pair counts only when its value is non-empty), each with and (when -o is given) without a pre-existing output file holding sentinel bytes, run through the real main() with cobra/pflag wiring (harness binary in child-cli mode: only http.DefaultTransport is replaced by a scripted, well-behaved Atlas endpoint that logs requests) in a fresh sandbox (own cwd, HOME, TMPDIR); reference model = rule table of DESIGN.md C18 (must-reject / open / must-accept); must-reject => non-zero exit, non-empty stderr, sandbox snapshot (path, type, mode, size, SHA-256) unchanged, empty request log; must-accept => exit 0 and redacted output present; a rejection of an open combination must be side-effect free as well. states = combinations, transitions = runs, every one compared with the model",
+		Rule:        "all 8192 presence/absence combinations (about 80 000 runs with the variants) of {file argument (one, two different ones, the same one twice), piped stdin, --outputFile (value out.log or '-', which names a file like any other), --encrypt, --redactFieldsRegexp, --redactFieldNames, --atlasProjectId, --atlasClusterName, --atlasPublicKey, --atlasPrivateKey, --atlasLogStartDate, --atlasLogEndDate, key pair in the environment}, crossed with the WAYS two of them can be present (stdin: a pipe or a redirected regular file; environment: both variables set, only one of them set, one or both set to the empty string - a half of the pair counts only when its value is non-empty), each with and (when -o is given) without a pre-existing output file holding sentinel bytes, run through the real main() with cobra/pflag wiring (harness binary in child-cli mode: only http.DefaultTransport is replaced by a scripted, well-behaved Atlas endpoint that logs requests) in a fresh sandbox (own cwd, HOME, TMPDIR); reference model = rule table of DESIGN.md C18 (must-reject / open / must-accept); must-reject => non-zero exit, non-empty stderr, sandbox snapshot (path, type, mode, size, SHA-256) unchanged, empty request log; must-accept => exit 0 and redacted output present; a rejection of an open combination must be side-effect free as well. states = combinations, transitions = runs, every one compared with the model",
 		Assumptions: []string{"combinations the statement does not decide (Atlas key / date flags next to a real input; Atlas mode with --encrypt; several file arguments and nothing else) are open: either outcome is accepted", "flag VALUES are fixed well-formed ones; only presence is enumerated"},
 		Run:         c18Run, Post: c18Post,
 	})
